@@ -23,6 +23,12 @@ measures are also driven over stacks with common missing entries (every single p
 pairs / triples of positions) under every affine map (incl. offsets +7, +1e3) resp. scaling of
 their class, and corr(_cov) must equal cosine(_cov) of the RDMs centred on their available entries.
 
+The measures built on the shared cosine kernel (cosine, corr, spearman, rho-a, cosine_cov, corr_cov)
+are also run on stacks that CONTAIN a degenerate (all-zero / constant) RDM next to ordinary ones, in
+either argument: the entries between ordinary RDMs must be invariant and equal the definition.
+The geo-topological transform must follow ONE reading of 'its quantile thresholds' (joint / per
+RDM) for all nine quantile pairs of a stack, boundary pairs (0,1), (0,u), (l,1) included.
+
 Part T also runs minmax / geodesic on integer-valued RDMs with values 1..K for every K (value
 range K-1, and five positive affine images of each) and requires the extremes to go to exactly
 0 and 1.  Part P/N (rank-based evaluations have noise ceilings): both pool_rdm twins against
@@ -70,6 +76,8 @@ ASSUMPTIONS = [
     'statement does not say whether the quantiles of a stack are taken per RDM or jointly: for '
     'stacks of 2 either reading is accepted, stacks for which one of the readings is undefined '
     'are excluded',
+    'whichever reading (joint - the one the tree implements - or per RDM) explains the geo-topological result, '
+    'it must be the same for all quantile pairs applied to one stack',
     'a stack whose quantile thresholds are closer than 1e-6 has no defined clipped-linear map (excluded)',
     'rank method "ordinal" breaks ties by position (scipy semantics named in the docstring)',
     'NaN entries: rank_transform, sqrt_transform, positive_transform and transform(fun) keep a missing '
@@ -104,6 +112,10 @@ BOUNDS = {
                                            'pairs/triples, every harness map of the class, one side per map, every second fill',
                              'centring_law': 'corr(_cov)==cosine(_cov) of centred RDMs: both n=3 alphabets, fills n_cond 4,5 complete '
                                              'and with every single / every pair (n_cond 4) of missing positions'},
+              'degenerate_in_stack': 'cosine, corr, spearman, rho-a, cosine_cov, corr_cov (all sigma_k forms): whole {0,1,2}^3 '
+                                     'block with its zero / constant vectors, all maps, all sides; fills with an all-zero RDM '
+                                     'inserted in the first / second / both stacks (one placement per fill and value kind)',
+              'geotop_stacks': 'all Tier-A 2-stacks and fills with 1, 2 and 3 RDMs x 9 quantile pairs, reading consistent per stack',
               'integer_ranges': 'K = 2..64: {1,K//2+1,K}^3 (27), [K,a,b,c,d,1] (16), 3 integer fills; each alone and as 5 affine images',
               'pool_and_noise_ceilings': {'pool_tierA': 'all 729 2-stacks over {0,1,2}^3, one treatment each (rotating)',
                                           'pool_fills': 'n_cond 4,5 x n_rdm 2,3,4 x 3 value kinds x 2 fills x 10 treatments; common NaN n_cond=4,n_rdm=3',
@@ -117,6 +129,7 @@ BOUNDS = {
                                 'generic_fills': 20, 'n_cond': [4, 5, 6],
                                 'common_nan': 'rank-based as quick; corr/cosine types: all fills, all sides, n_cond 4 every pair of positions',
                                 'centring_law': 'as quick with 4 fills'},
+                 'degenerate_in_stack': 'as quick plus the {-1,0,1,2}^3 blocks; fills: every placement, every side',
                  'integer_ranges': 'K = 2..128 as in quick; K = 2..64: all 729 vectors over {1,K//2+1,K}^6',
                  'pool_and_noise_ceilings': {'pool_tierA': 'all 2-stacks over {0,1,2}^3 and {-1,0,1,2}^3, all 19683 3-stacks over {0,1,2}^3',
                                              'pool_fills': 'as quick with 6 fills',
@@ -179,6 +192,7 @@ NAN_UNSUPPORTED = ('minmax', 'geodesic', 'geotop')
 # operations driven over the integer-range RDMs (values 1..K for every K): the two that depend on
 # the exact image of the extremes
 RANGE_OPS = [['minmax', None], ['geodesic', None]]
+GEOTOP_OPS = [['geotop', qp] for qp in QUANTILE_PAIRS]
 LIBNAME = {'rank': 'rank_transform', 'sqrt': 'sqrt_transform', 'positive': 'positive_transform',
            'minmax': 'minmax_transform', 'geodesic': 'geodesic_transform',
            'geotop': 'geotopological_transform', 'custom': 'transform'}
@@ -315,7 +329,7 @@ def _register(ctx, case, nontrivial=True):
         ctx.samples.append(_r.jsonable(case))
 
 
-def run_T(case, ctx, vecs=None):
+def run_T(case, ctx, vecs=None, state=None):
     """one transform call on one stack; case: {'kind':'T','src':..., 'op','param','dclass'}"""
     import rsatoolbox.rdm as rr
     if vecs is None:
@@ -383,12 +397,15 @@ def run_T(case, ctx, vecs=None):
             return
         # ---------------- values
         if op == 'geotop':
-            hit = None
+            hits = []
             for reading, rows, _ in cands:
-                ctx.dev('geotop/' + reading, maxreldev(got, rows))
                 if allclose(got, rows, TOL):
-                    hit = reading
-                    break
+                    if not hits:
+                        ctx.dev('geotop/' + reading, maxreldev(got, rows))
+                    hits.append(reading)
+            hit = hits[0] if hits else None
+            if state is not None and k > 1 and hits:
+                state.setdefault('geotop', []).append((param, hits))
             if hit is None:
                 ctx.fail('%s|%s|%s' % (name, stack, _geotop_kind(got.tolist(), cands, vecs.tolist())), case,
                          'stack %s quantiles (%s, %s): got %s, clipped-linear map gives %s (thresholds %s)' % (
@@ -434,6 +451,31 @@ def run_T(case, ctx, vecs=None):
                      'source measure %r, result measure %r' % (measure, new))
         elif not isinstance(new, str) or not new.strip():
             ctx.fail('%s|measure-name|not-a-string' % name, case, 'source measure %r, result %r' % (measure, new))
+
+
+def geotop_consistency(ctx, src, state):
+    """the statement leaves open whether the quantile thresholds of a stack are taken jointly or per
+    RDM - but it is ONE transform: the same reading must explain the results for all quantile pairs"""
+    seen = (state or {}).get('geotop', [])
+    if len(seen) < 2:
+        return
+    common = set(seen[0][1])
+    for _, hits in seen:
+        common &= set(hits)
+    if not common:
+        ctx.fail('geotopological_transform|stack>1|quantile-reading-differs-between-quantile-pairs',
+                 {'kind': 'Tgeo', 'src': src},
+                 'stack %s: readings of "the quantile thresholds" matching the result, per (low, up): %s' % (
+                     src, ['%s: %s' % (qp, '/'.join(h)) for qp, h in seen]))
+
+
+def run_Tgeo(case, ctx):
+    """all quantile pairs on one stack + the consistency of the reading across them"""
+    vecs = _stack_from_src(case['src'], ctx.seed)
+    state = {}
+    for n, qp in enumerate(QUANTILE_PAIRS):
+        run_T({'kind': 'T', 'src': case['src'], 'op': 'geotop', 'param': qp, 'dclass': n % 4}, ctx, vecs, state)
+    geotop_consistency(ctx, case['src'], state)
 
 
 # ------------------------------------------------------------------ stack sources
@@ -566,6 +608,10 @@ def _iter_T(shard):
                 if n_vec >= 2:
                     for p in range(m):
                         yield ['fill', n_cond, fill, vk, n_vec, [[0, p], [1, (p + 1) % m]]], NAN_OPS
+        if 3 not in shard['stacks']:
+            # stacks of 3 RDMs with different ranges for every quantile pair (incl. the boundary pairs)
+            for vk in ('signed', 'ties', 'nonneg'):
+                yield ['fill', n_cond, fill, vk, 3, None], GEOTOP_OPS
     else:
         raise ValueError(kind)
 
@@ -639,6 +685,15 @@ NAN_MAPS = ['cube', 'lib:transform(cube)', 'lib:sqrt_transform', 'lib:rank_trans
 CORR_ONLY_MAPS = ('2.5x+7', '0.3x+1e3')
 
 
+# measures driven over stacks that contain a degenerate (all-zero / constant) RDM next to ordinary ones
+DEGEN_METHODS = ('cosine', 'corr', 'spearman', 'rho-a', 'cosine_cov', 'corr_cov')
+
+
+def degen_maps_for(method):
+    """maps for stacks with degenerate RDMs: minmax_transform is undefined for a constant RDM"""
+    return [m for m in maps_for(method) if m != 'lib:minmax_transform']
+
+
 def nan_maps_for(method):
     """maps driven over stacks with common missing entries"""
     if method in RANK_BASED:
@@ -657,9 +712,10 @@ def maps_for(method):
     return [m for m in MAP_ORDER if MAPS[m][0] in classes]
 
 
-def _partner_map(method, mp, nonneg, nan=False):
+def _partner_map(method, mp, nonneg, nan=False, degen=False):
     """the map applied to the second argument when both are mapped: the next admissible one"""
-    ms = [m for m in (nan_maps_for(method) if nan else maps_for(method)) if nonneg or MAPS[m][1] == 'any']
+    pool = nan_maps_for(method) if nan else (degen_maps_for(method) if degen else maps_for(method))
+    ms = [m for m in pool if nonneg or MAPS[m][1] == 'any']
     return ms[(ms.index(mp) + 1) % len(ms)]
 
 
@@ -679,6 +735,16 @@ def _inv_stacks(src, seed):
             # the same condition pairs missing in every RDM of both stacks (supported by compare)
             X[:, src[4]] = np.nan
             Y[:, src[4]] = np.nan
+        if len(src) > 5 and src[5]:
+            # an all-zero RDM (zero norm, constant: degenerate for every measure) inside the stack(s),
+            # at a position that depends on the fill
+            zero = np.zeros((1, X.shape[1]))
+            if 'x' in src[5]:
+                k = src[2] % (len(X) + 1)
+                X = np.concatenate([X[:k], zero, X[k:]])
+            if 'y' in src[5]:
+                k = (src[2] + 2) % (len(Y) + 1)
+                Y = np.concatenate([Y[:k], zero, Y[k:]])
         return X, Y
     raise ValueError(src)
 
@@ -702,7 +768,9 @@ def run_I(case, ctx, base=None):
     X, Y = _inv_stacks(case['src'], ctx.seed)
     keep = ~np.isnan(X[0])
     has_nan = not bool(keep.all())
-    # degenerate vectors (undefined measure) leave the stacks; counted
+    # degenerate vectors (undefined measure): counted; they leave the stacks, or - case['degen'] - stay
+    # in the stacks next to the ordinary RDMs and only their own entries are not judged
+    degen = bool(case.get('degen'))
     kx = [i for i, x in enumerate(X) if not mref.is_degenerate(method, x[keep])]
     ky = [j for j, y in enumerate(Y) if not mref.is_degenerate(method, y[keep])]
     n_ex = len(X) * len(Y) - len(kx) * len(ky)
@@ -711,7 +779,13 @@ def run_I(case, ctx, base=None):
         ctx.evaluations += n_ex
     if not kx or not ky:
         return None
-    X, Y = X[kx], Y[ky]
+    if degen:
+        if not n_ex:
+            return None     # nothing degenerate in these stacks: covered by the plain case
+        kx, ky = set(kx), set(ky)
+    else:
+        X, Y = X[kx], Y[ky]
+        kx, ky = set(range(len(X))), set(range(len(Y)))
     nonneg = bool(np.nanmin(X) >= 0 and np.nanmin(Y) >= 0)
     cls, dom, fun = MAPS[mp]
     if dom == 'nonneg' and not nonneg:
@@ -726,12 +800,15 @@ def run_I(case, ctx, base=None):
         tag += ',sigma_k=%s' % case['sigma']
     if has_nan:
         tag += ',nan'
+    if degen:
+        tag += ',degenerate-RDM-in-stack'
+    sigma_ref = kw.get('sigma_k')
     import mc.runner as _r
     with ctx.guard('invariance|' + tag, case):
         rx, ry = rr.RDMs(X.copy()), rr.RDMs(Y.copy())
         if base is None:
             base = np.asarray(rr.compare(rx, ry, method=method, **kw))
-        mp2 = _partner_map(method, mp, nonneg, has_nan)
+        mp2 = _partner_map(method, mp, nonneg, has_nan, degen)
         tx = fun(rx) if side in ('x', 'xy') else rx
         if side == 'y':
             ty = fun(ry)
@@ -756,8 +833,12 @@ def run_I(case, ctx, base=None):
             return base
         h = _r.h64(case)
         for i in range(got.shape[0]):
-            txi = TX[i][keep] if rank_based else None
+            if i not in kx:
+                continue
+            txi = TX[i][keep] if (rank_based or degen) else None
             for j in range(got.shape[1]):
+                if j not in ky:
+                    continue
                 ctx.evaluations += 1
                 ctx.distinct.add(hash((h, i, j)))
                 ctx.dev('inv/' + method, reldev(got[i, j], base[i, j]))
@@ -766,12 +847,16 @@ def run_I(case, ctx, base=None):
                              '%s of x=%s, y=%s is %.12g; after %s on %s%s it is %.12g' % (
                                  method, X[i].tolist(), Y[j].tolist(), base[i, j], mp, side,
                                  ' (second argument mapped by %s)' % mp2 if side == 'xy' else '', got[i, j]))
-                if rank_based:
-                    # the order-only definition (exact comparisons) evaluated on the mapped values
-                    want = mref.similarity(method, txi, TY[j][keep])
+                if rank_based or degen:
+                    # the definition (rank-based: order-only, exact comparisons) evaluated on the mapped values
+                    if white:
+                        want = mref.similarity(method, txi, TY[j][keep], sigma_ref,
+                                               None if not has_nan else (n_cond, list(np.nonzero(keep)[0])))
+                    else:
+                        want = mref.similarity(method, txi, TY[j][keep])
                     if want is not None:
                         ctx.dev('inv-def/' + method, reldev(got[i, j], want))
-                        if not close(got[i, j], want, TOL):
+                        if not close(got[i, j], want, tol):
                             ctx.fail('invariance|%s|differs-from-definition' % tag, dict(case, i=i, j=j),
                                      '%s of the mapped x=%s, y=%s (map %s on %s) is %.12g, definition %.12g' % (
                                          method, TX[i].tolist(), TY[j].tolist(), mp, side, got[i, j], want))
@@ -1093,6 +1178,11 @@ def shards(tier, seed):
         for a in range(0, len(ms), chunk):
             out.append({'kind': 'I', 'method': method, 'sigma': sigma, 'src': src, 'maps': ms[a:a + chunk],
                         'sides': sides})
+        if method in DEGEN_METHODS and src[0] == 'alpha' and (th or src[1] == '012^3'):
+            # the whole alphabet block with its all-zero / constant vectors left inside the stacks
+            out.append({'kind': 'I', 'method': method, 'sigma': sigma, 'src': src, 'degen': True,
+                        'maps': [mp for mp in ms if mp in degen_maps_for(method)],
+                        'sides': 'all' if th or src[1] == '012^3' else 'rot'})
 
     meth_sig = ([(m, 'none') for m in RANK_BASED + ['corr', 'cosine']] +
                 [(m, s) for m in ('corr_cov', 'cosine_cov') for s in ('none', 'vector', 'full')])
@@ -1176,20 +1266,26 @@ def run_shard(shard, ctx):
         n = 0
         for src, ops in _iter_T(shard):
             vecs = _stack_from_src(src, ctx.seed)
+            state = {}
             for op, param in ops:
                 n += 1
-                run_T({'kind': 'T', 'src': src, 'op': op, 'param': param, 'dclass': n % 4}, ctx, vecs)
+                run_T({'kind': 'T', 'src': src, 'op': op, 'param': param, 'dclass': n % 4}, ctx, vecs, state)
+            geotop_consistency(ctx, src, state)
     elif kind == 'I':
         base = None
         for mp in shard['maps']:
             for side in _sides(shard.get('sides', 'all'), mp):
-                base = run_I({'kind': 'I', 'method': shard['method'], 'sigma': shard['sigma'],
-                              'src': shard['src'], 'map': mp, 'side': side}, ctx, base)
+                case = {'kind': 'I', 'method': shard['method'], 'sigma': shard['sigma'],
+                        'src': shard['src'], 'map': mp, 'side': side}
+                if shard.get('degen'):
+                    case['degen'] = True
+                base = run_I(case, ctx, base)
                 if base is None:
                     return
     elif kind == 'Ifill':
         method = shard['method']
         part = shard.get('part', 'both')
+        thorough = ctx.tier == 'thorough'
         for fill in range(shard['fills'][0], shard['fills'][1]):
             for vk in (('signed', 'ties', 'nonneg') if part != 'nan' else ()):
                 src = ['fill', shard['n_cond'], fill, vk]
@@ -1204,7 +1300,6 @@ def run_shard(shard, ctx):
                             break
                     if base is None:
                         break
-            thorough = ctx.tier == 'thorough'
             if method not in RANK_BASED and shard['n_cond'] in (4, 5) and (thorough or fill % 2 == 0):
                 # correlation- / cosine-type measures on stacks with common missing entries: every map of
                 # the class (quick: one side per map, rotating; thorough: every side)
@@ -1216,6 +1311,24 @@ def run_shard(shard, ctx):
                             for side in (('x', 'y', 'xy') if thorough else _sides('rot', mp, k)):
                                 base = run_I({'kind': 'I', 'method': method, 'sigma': shard['sigma'],
                                               'src': src, 'map': mp, 'side': side}, ctx, base)
+                                if base is None:
+                                    break
+                            if base is None:
+                                break
+            if method in DEGEN_METHODS:
+                # an all-zero RDM inside the first, the second or both stacks
+                for kv, vk in enumerate(('signed', 'ties', 'nonneg')):
+                    for k, where in enumerate(('x', 'y', 'xy')):
+                        if not thorough and (fill + kv) % 3 != k:
+                            continue    # quick: one placement per (fill, value kind), rotating
+                        src = ['fill', shard['n_cond'], fill, vk, None, where]
+                        base = None
+                        for mp in degen_maps_for(method):
+                            if MAPS[mp][1] == 'nonneg' and vk != 'nonneg':
+                                continue
+                            for side in (('x', 'y', 'xy') if thorough else _sides('rot', mp, k)):
+                                base = run_I({'kind': 'I', 'method': method, 'sigma': shard['sigma'], 'src': src,
+                                              'map': mp, 'side': side, 'degen': True}, ctx, base)
                                 if base is None:
                                     break
                             if base is None:
@@ -1269,6 +1382,8 @@ def run_case(case, ctx):
     kind = case['kind']
     if kind == 'T' and 'op' in case:
         run_T(case, ctx)
+    elif kind == 'Tgeo':
+        run_Tgeo(case, ctx)
     elif kind == 'I' and 'side' in case:
         case = {k: v for k, v in case.items() if k not in ('i', 'j')}
         run_I(case, ctx)
